@@ -202,6 +202,9 @@ theorem connect_nonempty {α : Type} (b : BufferedBus α) (c : Int) (hql : 1 ≤
         rw [h3]
         intro hc; cases hc
 
+/-- a fetch unit that has stopped has passed the end; one that waits for memory counts down from a non-negative number -/
+def FuOk (fu : FetchUnit) : Prop := (fu.co = .done → fu.complete = true) ∧ (fu.co = .wait → 0 ≤ fu.remainingCycles)
+
 /-- **what makes the pipeline move** (between two ticks and between the units of a tick): what waits in the buffers of the
 execute, control and decode bus is due at the next `Connect`; the scoreboards hold no entry without an instruction in flight;
 a decode unit that has seen a `ret` still has that `ret` in flight; a fetch unit that has stopped has passed the end -/
@@ -213,26 +216,28 @@ structure Live (s : State) : Prop where
   dql : 1 ≤ s.decodeBus.queueLength
   backL : BackL s.ctx s.writeBus.inside s.executeBus.inside
   retIn : s.du.ret = true → ∃ r ∈ runners s, (r.instr.instructionType == Gen.InstructionType.Ret) = true
-  fuDone : s.fu.co = .done → s.fu.complete = true
+  fuDone : FuOk s.fu
+  xbl : s.executeBus.bufferLength = 2
+  pcap : 1 ≤ s.cuPendings.length
 
 /-! ### the units keep these facts -/
 
 theorem fuEmit_live (app : App) (fu : FetchUnit) (bus : BufferedBus Word) (c : Int) (hd : Due bus (c + 1))
-    (hf : fu.co = .done → fu.complete = true) :
-    Due (fuEmit app fu bus c).2 (c + 1) ∧ ((fuEmit app fu bus c).1.co = .done → (fuEmit app fu bus c).1.complete = true) ∧
+    (hf : FuOk fu) :
+    Due (fuEmit app fu bus c).2 (c + 1) ∧ FuOk (fuEmit app fu bus c).1 ∧
     (fuEmit app fu bus c).2.queueLength = bus.queueLength := by
   unfold fuEmit
   refine ⟨hd.add _, ?_, rfl⟩
   simp only
   split
-  · intro _; rfl
+  · exact ⟨fun _ => rfl, fun hc => by cases hc⟩
   · exact hf
 
 theorem coFetchLoop_live (app : App) (c : Int) :
     ∀ (n : Nat) (fu fu' : FetchUnit) (mmu mmu' : Model.Mmu.Mmu) (bus bus' : BufferedBus Word),
-    Due bus (c + 1) → (fu.co = .done → fu.complete = true) →
+    Due bus (c + 1) → FuOk fu →
     coFetchLoop app c n fu mmu bus = .ok (fu', mmu', bus') →
-    Due bus' (c + 1) ∧ (fu'.co = .done → fu'.complete = true) ∧ bus'.queueLength = bus.queueLength := by
+    Due bus' (c + 1) ∧ FuOk fu' ∧ bus'.queueLength = bus.queueLength := by
   intro n
   induction n with
   | zero =>
@@ -256,18 +261,18 @@ theorem coFetchLoop_live (app : App) (c : Int) :
         split at hr
         · simp only [pure, Except.pure, Except.ok.injEq, Prod.mk.injEq] at hr
           obtain ⟨rfl, rfl, rfl⟩ := hr
-          exact ⟨hd, (fun hc => by cases hc), rfl⟩
+          exact ⟨hd, ⟨(fun hc => by cases hc), fun _ => by (show (0 : Int) ≤ Gen.Latency.MemoryAccess - 1); decide⟩, rfl⟩
         · obtain ⟨e1, e2, e3⟩ := fuEmit_live app fu bus c hd hf
           have := ih _ fu' mmu1 mmu' _ bus' e1 e2 hr
           exact ⟨this.1, this.2.1, this.2.2.trans e3⟩
 
 theorem fetchCore_live (app : App) (c : Int) (fu fu' : FetchUnit) (mmu mmu' : Model.Mmu.Mmu) (bus bus' : BufferedBus Word)
-    (hd : Due bus (c + 1)) (hf : fu.co = .done → fu.complete = true)
+    (hd : Due bus (c + 1)) (hf : FuOk fu)
     (hr : fetchCore app c fu mmu bus = .ok (fu', mmu', bus')) :
-    Due bus' (c + 1) ∧ (fu'.co = .done → fu'.complete = true) ∧ bus'.queueLength = bus.queueLength := by
+    Due bus' (c + 1) ∧ FuOk fu' ∧ bus'.queueLength = bus.queueLength := by
   have key : ∀ (fu : FetchUnit) (bus : BufferedBus Word), fu.toCleanPending = false → Due bus (c + 1) →
-      (fu.co = .done → fu.complete = true) → fetchCore app c fu mmu bus = .ok (fu', mmu', bus') →
-      Due bus' (c + 1) ∧ (fu'.co = .done → fu'.complete = true) ∧ bus'.queueLength = bus.queueLength := by
+      FuOk fu → fetchCore app c fu mmu bus = .ok (fu', mmu', bus') →
+      Due bus' (c + 1) ∧ FuOk fu' ∧ bus'.queueLength = bus.queueLength := by
     intro fu bus hcl hd hf hr
     obtain ⟨fpc, ftc, fcm, fco, frc⟩ := fu
     simp only at hcl
@@ -283,21 +288,27 @@ theorem fetchCore_live (app : App) (c : Int) (fu fu' : FetchUnit) (mmu mmu' : Mo
     | wait =>
       simp only [hco] at hr
       split at hr
-      · simp only [pure, Except.pure, Except.ok.injEq, Prod.mk.injEq] at hr
+      · rename_i hne
+        simp only [pure, Except.pure, Except.ok.injEq, Prod.mk.injEq] at hr
         obtain ⟨rfl, rfl, rfl⟩ := hr
-        exact ⟨hd, (fun hc => by cases hc), rfl⟩
+        subst hco
+        refine ⟨hd, ⟨(fun hc => by cases hc), fun _ => ?_⟩, rfl⟩
+        have h0 : 0 ≤ frc := hf.2 rfl
+        have h1 : frc ≠ 0 := by simpa using hne
+        show 0 ≤ frc - 1
+        omega
       · split at hr
         · cases hr
         · simp only [pure, Except.pure, Except.ok.injEq, Prod.mk.injEq] at hr
           obtain ⟨rfl, rfl, rfl⟩ := hr
-          exact fuEmit_live app ⟨fpc, false, fcm, .none, frc⟩ bus c hd (fun hc => by cases hc)
+          exact fuEmit_live app ⟨fpc, false, fcm, .none, frc⟩ bus c hd ⟨(fun hc => by cases hc), fun hc => by cases hc⟩
     | none =>
       simp only [hco] at hr
       split at hr
       · simp only [pure, Except.pure, Except.ok.injEq, Prod.mk.injEq] at hr
         obtain ⟨rfl, rfl, rfl⟩ := hr
-        exact ⟨hd, (fun hc => by cases hc), rfl⟩
-      · exact coFetchLoop_live app c _ _ fu' mmu mmu' bus bus' hd (fun hc => by cases hc) hr
+        exact ⟨hd, ⟨(fun hc => by cases hc), fun hc => by cases hc⟩, rfl⟩
+      · exact coFetchLoop_live app c _ _ fu' mmu mmu' bus bus' hd ⟨(fun hc => by cases hc), fun hc => by cases hc⟩ hr
   cases hc : fu.toCleanPending with
   | false => exact key fu bus hc hd hf hr
   | true =>
@@ -391,6 +402,45 @@ theorem cuPendingLoop_inBus (c : Int) : ∀ (items : List (Nat × Runner)) (st :
     · split
       · rw [ih]
       · rw [ih]
+
+theorem cuBusLoop_pcap (c : Int) : ∀ (n : Nat) (st : CuSt), (cuBusLoop c n st).pendings.length = st.pendings.length := by
+  intro n
+  induction n with
+  | zero => intro st; rfl
+  | succ n ih =>
+    intro st
+    simp only [cuBusLoop]
+    split
+    · rfl
+    · cases hq : st.inBus.queue with
+      | nil => simp [get_none _ hq]
+      | cons r q =>
+        simp only [get_some _ r q hq]
+        split
+        · split <;> rfl
+        · refine (ih _).trans ?_; split <;> rfl
+
+theorem cuPendingLoop_pcap (c : Int) : ∀ (items : List (Nat × Runner)) (st : CuSt),
+    (cuPendingLoop c items st).1.pendings.length = st.pendings.length := by
+  intro items
+  induction items with
+  | nil => intro st; rfl
+  | cons hd rest ih =>
+    intro st
+    obtain ⟨h, r⟩ := hd
+    simp only [cuPendingLoop]
+    split
+    · split <;> rfl
+    · refine (ih _).trans ?_; split <;> rfl
+
+theorem controlCycle_pcap (s : State) : (controlCycle s).cuPendings.length = s.cuPendings.length := by
+  rw [controlCycle_eq]
+  split
+  · rfl
+  · simp only [cuLoops]
+    split
+    · exact cuPendingLoop_pcap _ _ _
+    · exact (cuBusLoop_pcap _ _ _).trans (cuPendingLoop_pcap _ _ _)
 
 /-- the control unit only reads the control bus -/
 theorem controlCycle_cbus (s : State) : (controlCycle s).controlBus.buffer = s.controlBus.buffer ∧
